@@ -78,6 +78,11 @@ func main() {
 	}
 
 	start := time.Now()
+	// a rule that does not terminate on an unforeseen shape must not hang the check
+	time.AfterFunc(20*time.Minute, func() {
+		fmt.Fprintln(os.Stderr, "llvmlint: watchdog: the analysis did not finish within 20 minutes (this is not 'property holds')")
+		os.Exit(2)
+	})
 	defer func() {
 		if r := recover(); r != nil {
 			fmt.Fprintf(os.Stderr, "llvmlint: analyser panic: %v\n%s\n", r, debug.Stack())
